@@ -52,11 +52,60 @@ def run(chk, prog):
         else None
     if ions is None:
         raise AnalysisBroken("enum IonName not found")
-    conv = Converter(positive_atoms=True)
+    p1_lambdas = {}
+
+    def lam_of(init):
+        i0 = C.strip_casts(init) if init is not None else None
+        while i0 is not None and i0.get("k") == "Ctor" and len(i0["a"]) == 1:
+            i0 = C.strip_casts(i0["a"][0])
+        return i0 if i0 is not None and i0.get("k") == "Lambda" else None
+
+    def p1_call_hook(e, env_, conv_):
+        """a call of a local lambda: its body as a (piecewise) formula of the arguments"""
+        lam = None
+        for key_ in ("obj", "callee"):
+            o_ = C.strip_casts(e.get(key_)) if e.get(key_) is not None else None
+            if o_ is not None and o_.get("k") == "Ref" and o_.get("id") in p1_lambdas:
+                lam = p1_lambdas[o_["id"]]
+        if lam is None:
+            return None
+        env2 = env_.copy()
+        for p_, a_ in zip(lam["params"], e["a"]):
+            env2.vals[("l", p_["id"])] = conv_.conv(a_, env_)
+
+        def ev(stmts):
+            for i_, st_ in enumerate(stmts):
+                k_ = st_.get("k")
+                if k_ == "Block":
+                    return ev(st_["s"] + stmts[i_ + 1:])
+                if k_ == "Decl":
+                    for d_ in st_["d"]:
+                        if d_.get("init") is not None:
+                            env2.vals[("l", d_["id"])] = conv_.conv(d_["init"], env2)
+                elif k_ == "If":
+                    c_ = conv_.conv(st_["c"], env2)
+                    tv = ev([st_["th"]] + stmts[i_ + 1:])
+                    fv = ev(([st_["el"]] if st_.get("el") is not None else []) + stmts[i_ + 1:])
+                    if c_ in (sp.true, True):
+                        return tv
+                    if c_ in (sp.false, False):
+                        return fv
+                    raise AnalysisBroken("compute_ionization_states_metals: a lambda branches on a condition that is not a "
+                                         "flag of the path (line %s)" % st_.get("l"))
+                elif k_ == "Return":
+                    return conv_.conv(st_["x"], env2)
+            raise AnalysisBroken("compute_ionization_states_metals: a lambda path without return")
+        return ev([lam["body"]])
+    conv = Converter(positive_atoms=True, call_hook=p1_call_hook)
     env = Env()
     for p in fn["params"]:
         if p["t"].replace("const ", "").strip() == "double":
             env.vals[("l", p["id"])] = sp.Symbol(p["n"], positive=True)
+    # ---- P4: denominators with a charge-transfer term stay strictly positive (sign analysis, lambdas followed) ---------
+    from . import c06_denominators
+    n4 = c06_denominators.rule_P4(chk, fn)
+    chk.floor("P4", n4, 8)
+
     def execute(stmts, env, sets, conds):
         """Leaves of the (loop-free) statement list: [(sets, conds)]; every `if` forks, conditions stay opaque."""
         leaves = [(env, sets, conds)]
@@ -64,7 +113,21 @@ def run(chk, prog):
             nxt = []
             for env1, sets1, conds1 in leaves:
                 k = s.get("k")
-                if k == "Decl":
+                if k == "Decl" and any(lam_of(d.get("init")) is not None for d in s["d"]):
+                    for d in s["d"]:
+                        if lam_of(d.get("init")) is not None:
+                            p1_lambdas[d["id"]] = lam_of(d["init"])
+                    nxt.append((env1, sets1, conds1))
+                elif k == "Decl" and len(s["d"]) == 1 and s["d"][0].get("init") is not None and \
+                        (s["d"][0].get("t") or "").replace("const ", "").strip() == "bool" and \
+                        C.strip_casts(s["d"][0]["init"]).get("k") != "Bool":
+                    # a flag computed from the inputs: both values, as a condition of the path
+                    d = s["d"][0]
+                    for val in (True, False):
+                        e2 = env1.copy()
+                        e2.vals[("l", d["id"])] = sp.true if val else sp.false
+                        nxt.append((e2, list(sets1), conds1 + [(d["n"], val, s.get("l"))]))
+                elif k == "Decl":
                     for d in s["d"]:
                         if d.get("init") is None:
                             continue
